@@ -250,6 +250,7 @@ def _run(trace, flav, prov):
     ci = flav.endswith("_ci")
     ref = Ref(ci)
     muts = []           # (kind, oid, exists) expected in the event stream
+    early = []          # events already pulled from the stream before a disconnect
     flags = {"big": False, "dir_rename": False, "expected_error": False, "replaced_empty_folder": False, "reconnect": False}
     id_style = not prov.oid_is_path
     list(prov.events())     # start from a clean stream
@@ -272,6 +273,10 @@ def _run(trace, flav, prov):
         k = a[0]
         if k == "reconnect":
             # what pausing and resuming a sync does to a provider: the stream must go on reporting afterwards
+            if flav == "fs":
+                # notifications still in flight when the watcher is detached are legitimately not delivered: let the
+                # stream catch up with what was done so far before pausing (what was seen is kept for the final check)
+                _events(prov, muts, flav, {o["oid"] for o in ref.t.values()}, early)
             prov.disconnect()
             prov.reconnect()
             flags["reconnect"] = True
@@ -435,7 +440,7 @@ def _run(trace, flav, prov):
         v = _agree(i, a, prov, ref, id_style, norm_oid, flav)
         if v:
             return v
-    v = _events(prov, muts, flav, {o["oid"] for o in ref.t.values()})
+    v = _events(prov, muts, flav, {o["oid"] for o in ref.t.values()}, early)
     if v:
         return v
     labs = ["flav:" + flav] + [f for f, x in flags.items() if x]
@@ -491,9 +496,9 @@ def _agree(i, a, prov, ref, id_style, norm_oid, flav):
     return None
 
 
-def _events(prov, muts, flav, final_live):
+def _events(prov, muts, flav, final_live, seen=None):
     want = [(oid, exists) for _k, oid, exists in muts]
-    seen = []
+    seen = [] if seen is None else seen
     deadline = time.time() + ((5.0, 10.0, 20.0)[_ATTEMPT[0]] if flav == "fs" else 0)
 
     def satisfied(w):
